@@ -4,7 +4,7 @@
 use crate::json::J;
 use crate::val::{self, Val};
 use crate::world::cb_enter;
-use bpaf::doc::{Doc, MetaInfo};
+use bpaf::doc::{Doc, MetaInfo, Style};
 use bpaf::parsers::NamedArg;
 use bpaf::{construct, OptionParser, Parser, ShellComp};
 use std::cell::RefCell;
@@ -200,7 +200,7 @@ pub fn named_arg(n: &Named) -> NamedArg {
     }
     let mut cur = cur.expect("generator never emits a nameless item");
     if let Some(h) = n.help {
-        cur = cur.help(h);
+        cur = cur.help(styled(h));
     }
     cur
 }
@@ -288,6 +288,21 @@ macro_rules! alt_arm {
     }};
 }
 
+/// A help text as the user may give it: a plain string, or - when the text contains U+0001
+/// separators - a styled document made of several pieces (`&[(&str, Style)]`)
+pub fn styled(s: &str) -> Doc {
+    if !s.contains('\u{1}') {
+        return Doc::from(s);
+    }
+    let styles = [Style::Text, Style::Literal, Style::Emphasis, Style::Metavar, Style::Invalid];
+    let parts: Vec<(&str, Style)> = s
+        .split('\u{1}')
+        .enumerate()
+        .map(|(i, part)| (part, styles[i % styles.len()]))
+        .collect();
+    Doc::from(&parts[..])
+}
+
 fn typed_arg(named: &Named, metavar: S, ty: Ty, adjacent: bool) -> P {
     let n = named_arg(named);
     macro_rules! fin {
@@ -314,7 +329,7 @@ fn typed_pos(metavar: S, ty: Ty, strict: u8, help: Option<S>) -> P {
         ($t:ty, $f:expr) => {{
             let mut a = bpaf::positional::<$t>(metavar);
             if let Some(h) = help {
-                a = a.help(h);
+                a = a.help(styled(h));
             }
             match strict {
                 1 => a.strict().map($f).boxed(),
@@ -363,7 +378,7 @@ pub fn build(shape: &Shape) -> P {
                 any_pred(pred, &os)
             });
             if let Some(h) = help {
-                a = a.help(*h);
+                a = a.help(styled(h));
             }
             if *anywhere {
                 a = a.anywhere();
@@ -417,7 +432,7 @@ pub fn build(shape: &Shape) -> P {
                 c = c.long(l);
             }
             if let Some(h) = help {
-                c = c.help(*h);
+                c = c.help(styled(h));
             }
             if *adjacent {
                 c = c.adjacent();
@@ -565,7 +580,7 @@ fn build_wrap(w: &W, p: P) -> P {
         W::Hide => p.hide().boxed(),
         W::HideUsage => p.hide_usage().boxed(),
         W::CustomUsage(s) => p.custom_usage(*s).boxed(),
-        W::GroupHelp(s) => p.group_help(*s).boxed(),
+        W::GroupHelp(s) => p.group_help(styled(s)).boxed(),
         W::WithGroupHelp(s) => {
             let s = *s;
             p.with_group_help(move |meta: MetaInfo| {
@@ -603,13 +618,13 @@ pub fn build_opts(o: &Opts) -> OptionParser<Val> {
         None => root.to_options(),
     };
     if let Some(d) = o.descr {
-        p = p.descr(d);
+        p = p.descr(styled(d));
     }
     if let Some(d) = o.header {
-        p = p.header(d);
+        p = p.header(styled(d));
     }
     if let Some(d) = o.footer {
-        p = p.footer(d);
+        p = p.footer(styled(d));
     }
     if let Some(v) = o.version {
         p = p.version(v);
